@@ -35,6 +35,26 @@ Definition router_sets_stat (k : hkind) (r : hret) : bool :=
 (* the two per-message entries the plugin keeps in the context swap *)
 Record swap := mkSwap { sw_acc : bool; sw_raw : bool }.
 
+(* keys of a swap map.  Application code stores under its own (string) keys; the plugin's two keys
+   are constants of the plugin's private type swapKey ("" and "0" of that type), and a Go map keyed by
+   interface{} distinguishes swapKey("0") from string("0"). *)
+Inductive skey := AppKey (k : bytes) | PluginRawBody | PluginAccept.
+
+Definition skey_eqb (a b : skey) : bool :=
+  match a, b with
+  | AppKey x, AppKey y => bytes_eqb x y
+  | PluginRawBody, PluginRawBody | PluginAccept, PluginAccept => true
+  | _, _ => false
+  end.
+
+Definition has_key (k : skey) (m : list skey) : bool := existsb (skey_eqb k) m.
+
+(* what the plugin finds in a context swap that was copied from the session swap [m].
+   [typed = true] is the code; [typed = false] the variant whose keys are the plain strings *)
+Definition plugin_view (typed : bool) (m : list skey) : swap :=
+  mkSwap (has_key (if typed then PluginAccept else AppKey (str "0")) m)
+         (has_key (if typed then PluginRawBody else AppKey []) m).
+
 Section Secure.
   Variable key : Type.
   Variable V : Type.                                   (* user values (args / results) *)
